@@ -14,8 +14,8 @@ import impl
 RULE = ("fixed families at scale: reflection-free cascade of N two-ports with exact unit-modulus rational phases "
         "(closed form: product), cascade of N weakly reflecting lossy two-ports (reference: dense numpy network solve), "
         "n x n mesh of beam splitters and phase shifters (unitarity + dense reference), lossy resonant chain of "
-        "mirror-waveguide cells, d-level nest of a two-port; sizes quick 500 / 300 / 6x6 / 100 / 40, thorough "
-        "2000 / 1000 / 14x14 / 400 / 60; distinct = family x size; all non-trivial")
+        "mirror-waveguide cells, d-level nest of a two-port, the lossy cascade cut into three large sub-solvers; sizes quick 500 / 300 / 6x6 / 100 / 40 / 600, thorough "
+        "2000 / 1000 / 14x14 / 400 / 60 / 3000; distinct = family x size; all non-trivial")
 TRUSTED = ["numpy dense solve of the global network system as reference at scale", "IEEE-754 accumulation behaviour is measured, not proved"]
 ASSUMPTIONS = ["relative accuracy target 1e-9"]
 EXPLANATION = "exact size-generic closed form / boundedness / definedness as Lean theorems; floating-point accuracy at scale is measured"
@@ -183,6 +183,39 @@ def family_resonant(ctx, n, rng):
     return rel_err(T, R)
 
 
+def family_blocked(ctx, n, rng):
+    """the lossy cascade cut into three sub-solvers, each holding a third of the chain, chained in a parent:
+    large sub-circuits *inside* a hierarchy"""
+    L = impl.lk()
+    r = np.random.default_rng(rng.randrange(2 ** 32))
+    mats, comps, links = [], [], []
+    for k in range(n):
+        t = 0.97 * np.exp(1j * r.uniform(0, 2 * np.pi))
+        rf = 0.12 * np.exp(1j * r.uniform(0, 2 * np.pi))
+        S = np.array([[rf, t], [t, -np.conj(rf) * t / np.conj(t) * 0.9]])
+        mats.append(S)
+        comps.append((["a", "b"], S))
+        if k:
+            links.append((k - 1, "b", k, "a"))
+    R = dense_reference(comps, links, [(0, "a"), (n - 1, "b")])
+    size = max(1, n // 3)
+    parent = L.Solver()
+    prev = None
+    first = None
+    for b in range(0, n, size):
+        blk = build_chain(mats[b:b + size])
+        st = L.Structure(solver=blk)
+        parent.add_structure(st)
+        if prev is not None:
+            parent.connect(prev, "OUT", st, "IN")
+        else:
+            first = st
+        prev = st
+    parent.map_pins({L.Pin("IN"): (first, L.Pin("IN")), L.Pin("OUT"): (prev, L.Pin("OUT"))})
+    T = impl.solved_matrix(parent.solve(), ["IN", "OUT"])[0]
+    return rel_err(T, R)
+
+
 def family_nest(ctx, depth, rng):
     L = impl.lk()
     z = PHASES[0]
@@ -216,7 +249,7 @@ def run(ctx):
     plan = [("cascade", family_cascade, 500 if q else 2000), ("lossy-cascade", family_lossy_cascade, 300 if q else 1000),
             ("weak-reflection-cascade", family_weak_reflection, 400 if q else 2000),
             ("mesh", family_mesh, 6 if q else 14), ("resonant-chain", family_resonant, 100 if q else 400),
-            ("nest", family_nest, 40 if q else 60)]
+            ("nest", family_nest, 40 if q else 60), ("blocked-cascade", family_blocked, 600 if q else 3000)]
     import sys
     measured = {}
     for name, fn, size in plan:
@@ -242,7 +275,7 @@ def run(ctx):
 def replay(ctx, data):
     rng = ctx.subrng("c20")
     fn = {"cascade": family_cascade, "lossy-cascade": family_lossy_cascade, "mesh": family_mesh, "weak-reflection-cascade": family_weak_reflection,
-          "resonant-chain": family_resonant, "nest": family_nest}[data["family"]]
+          "resonant-chain": family_resonant, "nest": family_nest, "blocked-cascade": family_blocked}[data["family"]]
     try:
         out = fn(ctx, data["size"], rng)
         err = out[0] if isinstance(out, tuple) else out
